@@ -16,6 +16,14 @@ Theorem C01_remote_rcpt_needs_relay : forall o chunks pre addr post,
 Proof. exact remote_rcpt_needs_relay. Qed.
 Print Assumptions C01_remote_rcpt_needs_relay.
 
+(** the submission port (TCPLOCALPORT 587, [o_submission]) takes mail only from entitled clients: MAIL FROM gets its 250 there
+    only if the relay list matched the client or an AUTH succeeded earlier on the same connection - the same
+    is_authenticated() as for a remote recipient, with the same cache and the same fail-closed treatment of an unreadable list *)
+Theorem C01_submission_needs_entitlement : forall o chunks pre f post, o_submission o = true ->
+  run_session o chunks = pre ++ Note (NMail f) :: post -> (0 < o_relay o)%Z \/ has_auth pre = true.
+Proof. exact submission_mail_needs_entitlement. Qed.
+Print Assumptions C01_submission_needs_entitlement.
+
 (** an AUTH note appears only where AUTH is permitted (a backend is configured) and the mechanism handler
     (base64 decoding + checkpassword, property C09) reported success for that very name *)
 Theorem C01_auth_only_from_backend : forall o chunks n,
@@ -34,7 +42,8 @@ Example C01_nonvacuous :
   existsb (fun e => match e with Note (NRcpt _ RNotLocal) => true | _ => false end)
     (run_session {| o_helo := fun _ => true; o_addr := fun _ _ => AP_ok [120]%N None RNotLocal;
                     o_ext := fun _ => Ext_ok 0 0 None; o_relay := 1%Z; o_mx := fun _ => 0; o_qq := fun _ => QQ_ok;
-                    o_databytes := 0%N; o_liphost := []; o_check2822 := false; o_authperm := false; o_auth := fun _ => Auth_multi; o_trace := fun _ _ _ _ _ _ => [] |}
+                    o_databytes := 0%N; o_liphost := []; o_check2822 := false; o_authperm := false; o_auth := fun _ => Auth_multi; o_trace := fun _ _ _ _ _ _ => [];
+              o_submission := false; o_subm_date := []; o_subm_stamp := []; o_msgidhost := [] |}
         [ [72;69;76;79;32;120;13;10]; [77;65;73;76;32;70;82;79;77;58;60;97;62;13;10];
           [82;67;80;84;32;84;79;58;60;98;62;13;10] ]%N) = true.
 Proof. vm_compute. reflexivity. Qed.
@@ -44,9 +53,24 @@ Example C01_nonvacuous_auth :
   let o := {| o_helo := fun _ => true; o_addr := fun _ _ => AP_ok [120]%N None RNotLocal;
               o_ext := fun _ => Ext_ok 0 0 None; o_relay := 0%Z; o_mx := fun _ => 0; o_qq := fun _ => QQ_ok;
               o_databytes := 0%N; o_liphost := []; o_check2822 := false; o_authperm := true;
-              o_auth := fun _ => Auth_ok [117]%N; o_trace := fun _ _ _ _ _ _ => [] |} in
+              o_auth := fun _ => Auth_ok [117]%N; o_trace := fun _ _ _ _ _ _ => [];
+              o_submission := false; o_subm_date := []; o_subm_stamp := []; o_msgidhost := [] |} in
   let ehlo := [69;72;76;79;32;120;13;10]%N in let auth := [65;85;84;72;32;80;76;65;73;78;32;120;13;10]%N in
   let mail := [77;65;73;76;32;70;82;79;77;58;60;97;62;13;10]%N in let rcpt := [82;67;80;84;32;84;79;58;60;98;62;13;10]%N in
   existsb (fun e => match e with Note (NRcpt _ RNotLocal) => true | _ => false end) (run_session o [ehlo; auth; mail; rcpt]) = true
   /\ existsb (fun e => match e with Note (NRcpt _ RNotLocal) => true | _ => false end) (run_session o [ehlo; mail; rcpt]) = false.
 Proof. vm_compute. split; reflexivity. Qed.
+
+(** the submission port: without entitlement no MAIL FROM is accepted; after AUTH it is *)
+Example C01_nonvacuous_submission :
+  let o := {| o_helo := fun _ => true; o_addr := fun _ _ => AP_ok [120]%N None RNotLocal;
+              o_ext := fun _ => Ext_ok 0 0 None; o_relay := 0%Z; o_mx := fun _ => 0; o_qq := fun _ => QQ_ok;
+              o_databytes := 0%N; o_liphost := []; o_check2822 := false; o_authperm := true;
+              o_auth := fun _ => Auth_ok [117]%N; o_trace := fun _ _ _ _ _ _ => [];
+              o_submission := true; o_subm_date := []; o_subm_stamp := []; o_msgidhost := [] |} in
+  let ehlo := [69;72;76;79;32;120;13;10]%N in let auth := [65;85;84;72;32;80;76;65;73;78;32;120;13;10]%N in
+  let mail := [77;65;73;76;32;70;82;79;77;58;60;97;62;13;10]%N in
+  existsb (fun e => match e with Note (NMail _) => true | _ => false end) (run_session o [ehlo; auth; mail]) = true
+  /\ existsb (fun e => match e with Note (NMail _) => true | _ => false end) (run_session o [ehlo; mail]) = false
+  /\ run_session o [ehlo; mail] = [Reply 220; Note NBoundary; Note NHelo; Note (NEsmtp true); Reply 250; Note NBadReset; Reply 550; Note NBad; Note NBadReset].
+Proof. vm_compute. repeat split; reflexivity. Qed.
